@@ -28,12 +28,57 @@ package pgo
 //@   ensures err == nil ==> res != nil
 
 //@ func (a *posAdjuster) Position(pos) (p)
-//@   trusted maps a position of the augmented text back to the patch (sort.Search over the adjustments, go/token): summarised
+//@   requires a.Fset != nil && a.File != nil
+//@   requires typing: fsFileOf(a.Fset, pos) != nil
 //@   assigns nothing
+
+// A position of the augmented text is mapped back to the patch: by its offset, reduced by what the
+// augmentations before it inserted, never before the start of the patch (C13, C19).
+//@ func (a *posAdjuster) Pos(pos) (p)
+//@   requires a.Fset != nil && a.File != nil
+//@   requires typing: fsFileOf(a.Fset, pos) != nil
+//@   at call (*go/token.File).Pos assert [C13,C19] mapped-into-the-patch-file-never-before-its-start: arg0 == a.File && arg1 >= 0
+//@   assigns nothing
+
 
 // The traversal callback of augmentAST: a placeholder the augmentation put into the text is replaced by an
 // elision node standing exactly where the placeholder stood - elisions of the two sides of a change are
 // associated by position (C04, C13).
 //@ func (a *augmenter) Apply(cursor) (res)
-//@   requires cursor != nil && a.file != nil && a.augs != nil
+//@   requires cursor != nil && a.file != nil && a.augs != nil && a.adj != nil
+//@   requires typing: curNode(cursor) != nil ==> cursorSlotTyped(cursor)
+//@   requires typing: forall k S_pgo_augPos {has(a.augs, k)} :: has(a.augs, k) ==> a.augs[k] != nil && a.augs[k].typ == dyn("*github.com/uber-go/gopatch/internal/pgo/augment.Dots")
 //@   at call (*golang.org/x/tools/go/ast/astutil.Cursor).Replace assert [C04,C13] the-elision-stands-where-its-placeholder-stood: dots != nil && dots.Dots == nodePos(n)
+
+// What is left in the table when the walk is over was never placed: each such augmentation is an error
+// (an elision that found no node must not be dropped silently - C04).
+//@ func (a *augmenter) Err() (err)
+//@   requires a.file != nil && a.adj != nil
+//@   at call (*pgo.augmenter).errf set unplaced = unplaced + 1
+//@   at call go.uber.org/multierr.Combine assert [C04,C13] every-augmentation-that-found-no-node-is-reported: len(arg0) >= old(len(a.errors)) + (unplaced - old(unplaced))
+//@   assigns a.errors, elems(a.errors), unplaced
+//@   requires typing: forall k S_pgo_augPos {has(a.augs, k)} :: has(a.augs, k) ==> isAug(a.augs[k])
+//@   loop 0
+//@     invariant len(a.errors) >= old(len(a.errors)) + (unplaced - old(unplaced))
+//@     invariant a.errors.arr == old(a.errors.arr) || fresh(a.errors.arr)
+
+//@ func (a *augmenter) errf(pos, msg, args)
+//@   requires a.adj != nil
+//@   assigns a.errors, elems(a.errors)
+//@   ensures [C04,C19] one-diagnostic-appended: len(a.errors) == old(len(a.errors)) + 1
+//@   ensures a.errors.arr == old(a.errors.arr) || fresh(a.errors.arr)
+
+//@ func (a *augmenter) pop(n) (aug)
+//@   requires n != nil && a.file != nil
+//@   assigns allof("MH.S_pgo_augPos.Iface"), allof("MV.S_pgo_augPos.Iface")
+//@   ensures [C04] what-is-handed-out-was-in-the-table: aug != nil ==> exists k S_pgo_augPos :: old(has(a.augs, k)) && old(a.augs[k]) == aug
+
+//@ func newAugmenter(file, augs, adj) (a)
+//@   requires typing: forall i int {augs[i]} :: 0 <= i && i < len(augs) ==> isAug(augs[i])
+//@   ensures a != nil && fresh(a) && a.file == file && a.adj == adj && a.augs != nil
+//@   assigns nothing
+
+// The binary-search predicate of posAdjuster.Pos.
+//@ func (a *posAdjuster) Pos$1(i) (r)
+//@   requires a != nil && 0 <= i && i < len(a.Adjs)
+//@   assigns nothing
